@@ -516,8 +516,18 @@ def _fix_multiline_opening_tag_with_closing(text: str) -> str:
             match = _multiline_closing_pattern.search(line)
             if match:
                 # Find which named group matched and split at the closing tag
-                for group_name in ["closing_tag", "closing_comment", "closing_var", "closing_html"]:
+                for group_name, opener in [
+                    ("closing_tag", SINGLE_JINJA_TAG.open_delim),
+                    ("closing_comment", SINGLE_JINJA_COMMENT.open_delim),
+                    ("closing_var", SINGLE_JINJA_VAR.open_delim),
+                    ("closing_html", SINGLE_HTML_COMMENT.open_delim),
+                ]:
                     if match.group(group_name) is not None:
+                        if opener in line[: match.start()]:
+                            # The opening tag starts on this same line (after other content),
+                            # so this is not the continuation of a multi-line tag.
+                            result_lines.append(line)
+                            break
                         split_pos = match.start(group_name)
                         before = line[:split_pos].rstrip()
                         closing = line[split_pos:].lstrip()
